@@ -128,9 +128,11 @@ def throttle_with_mapper_(
             current_id = _id[0]
             d = SingleAssignmentDisposable()
             cancelable.disposable = d
+            fired = [False]
 
             def on_next(x: Any) -> None:
                 nonlocal has_value
+                fired[0] = True
                 if has_value and _id[0] == current_id:
                     observer.on_next(value)
 
@@ -139,14 +141,21 @@ def throttle_with_mapper_(
 
             def on_completed() -> None:
                 nonlocal has_value
+                fired[0] = True
                 if has_value and _id[0] == current_id:
                     observer.on_next(value)
 
                 has_value = False
                 d.dispose()
 
+            def on_throttle_error(e: Exception) -> None:
+                # A throttle that notifies from inside its own subscribe()
+                # cannot be unsubscribed yet: once it has fired, it is done.
+                if not fired[0]:
+                    observer.on_error(e)
+
             d.disposable = throttle.subscribe(
-                on_next, observer.on_error, on_completed, scheduler=scheduler
+                on_next, on_throttle_error, on_completed, scheduler=scheduler
             )
 
         def on_error(e: Exception) -> None:
